@@ -64,6 +64,8 @@ def _number_of(v, param):
         return "round"
     if isinstance(v, IntOf) and isinstance(v.x, IntOf):
         return _number_of(v.x, param)
+    if isinstance(v, IntOf) and v.x == Param(param):
+        return "trunc"         # int(x): the digits before the point (exact only for a whole number - what a path must have tested)
     return None
 
 
@@ -92,8 +94,26 @@ def fixed_models(v, reg, param):
         sp = v.spec
         kind = _number_of(v.arg, param)
         if kind is not None and sp.typ in ("f", "F", "d") and sp.conv is None:
-            if sp.typ == "d" and kind != "round":
+            if (sp.typ == "d") != (kind in ("round", "trunc")) and (sp.typ == "d" or kind == "trunc"):
                 return None
+            if kind == "trunc":
+                # int(x) printed as an integer: |x| digits of the decade, never a carry; below 1 it is the digit 0 without a sign.
+                # Marked lossy: the fraction is cut, not rounded (a path that has established x == int(x) may disregard the mark)
+                w = as_int(sp.width) if sp.width is not None else 0
+                if w is None or sp.fill != " " or sp.zero or sp.alt:
+                    return None
+                k = reg.k
+                c = Cols(sign=1 if ((reg.neg and k >= 1) or sp.sign in "+ ") else 0, intd=max(k, 1), lead0=k < 1, point=False, P=0,
+                         frac_zero=True, zero=k < 1 and sp.sign == "-", lossy=True)
+                pad = max(0, w - c.width)
+                al = sp.eff_align(False)
+                if al == "<":
+                    return [dc_replace(c, pad_r=pad)]
+                if al == "^":
+                    return [dc_replace(c, pad_l=pad // 2, pad_r=pad - pad // 2)]
+                if al == "=" and pad:
+                    return None
+                return [dc_replace(c, pad_l=pad)]
             P = 0 if sp.typ == "d" else (as_int(sp.prec) if sp.prec is not None else 6)
             w = as_int(sp.width) if sp.width is not None else 0
             if P is None or w is None or sp.fill != " " or sp.zero:
